@@ -15,6 +15,7 @@ use std::{
 };
 
 static UNIQ: AtomicU64 = AtomicU64::new(0);
+static STUCK_SECS: AtomicU64 = AtomicU64::new(4);
 
 pub struct Cfg {
     pub keep: bool,
@@ -190,7 +191,7 @@ fn open_chan(st: &mut St, opts: &Value) {
 }
 
 async fn quiesce(obs: &mut Vec<Value>) {
-    if tokio::time::timeout(Duration::from_secs(4), verif::quiescent())
+    if tokio::time::timeout(Duration::from_secs(STUCK_SECS.load(Ordering::SeqCst)), verif::quiescent())
         .await
         .is_err()
     {
@@ -437,6 +438,139 @@ async fn exec_op(st: &mut St, op: &Value, obs: &mut Vec<Value>) {
             obs.push(json!({"k":"conc","n":n,"ok":okn,"results":results}));
             quiesce(obs).await;
         }
+        "swarm" => {
+            // many processes at once: start them (in parallel client threads when asked), then answer, round by round,
+            // one open interrupt per process (smallest (nid, tid)), all processes concurrently
+            let spec = a.get(1).cloned().unwrap_or(json!({}));
+            let parallel = spec["parallel"].as_bool().unwrap_or(true);
+            let rounds = spec["rounds"].as_u64().unwrap_or(60);
+            let handle = tokio::runtime::Handle::current();
+            let starts = spec["starts"].as_array().cloned().unwrap_or_default();
+            let mut joins = Vec::new();
+            for sv in starts {
+                let exec = st.engine.executor();
+                let handle = handle.clone();
+                let f = move || {
+                    let _g = handle.enter();
+                    let mid = sv[0].as_str().unwrap_or("").to_string();
+                    let vars = vars_of(&sv[1]);
+                    let want = sv[1]["pid"].as_str().unwrap_or("").to_string();
+                    match exec.proc().start(&mid, &vars) {
+                        Ok(pid) => json!({"k":"swarm_start","pid":pid,"ok":true}),
+                        Err(e) => json!({"k":"swarm_start","pid":want,"ok":false,"err":classify(&e.to_string())}),
+                    }
+                };
+                if parallel {
+                    joins.push(std::thread::spawn(f));
+                } else {
+                    obs.push(f());
+                }
+            }
+            for j in joins {
+                obs.push(j.join().unwrap_or_else(|_| json!({"k":"swarm_start","ok":false,"err":"panic"})));
+            }
+            for o in obs.iter() {
+                if o["k"] == "swarm_start" && o["ok"] == true {
+                    let pid = o["pid"].as_str().unwrap_or("").to_string();
+                    if !st.pids.contains(&pid) {
+                        st.pids.push(pid);
+                    }
+                }
+            }
+            quiesce(obs).await;
+            let answers = spec["answers"].clone();
+            let mut refused: Vec<(String, String)> = Vec::new();
+            for round in 0..rounds {
+                if obs.iter().any(|o| o["k"] == "stuck") {
+                    break;
+                }
+                let q = json!({"conds":[{"type":"and","exprs":[["eq","state","interrupted"],["eq","kind","act"]]}],"limit":100000});
+                let r = storeops::store_op(&st.engine, "tasks", "query", &q);
+                let rows = r["rows"].as_array().cloned().unwrap_or_default();
+                let mut pick: HashMap<String, (String, String)> = HashMap::new();
+                for row in rows {
+                    let pid = row["pid"].as_str().unwrap_or("").to_string();
+                    let tid = row["tid"].as_str().unwrap_or("").to_string();
+                    // an interrupt whose answer was refused stays open; the client moves on to the next one
+                    if refused.contains(&(pid.clone(), tid.clone())) {
+                        continue;
+                    }
+                    let nid = serde_json::from_str::<Value>(row["node_data"].as_str().unwrap_or("{}"))
+                        .ok()
+                        .and_then(|n| n["id"].as_str().map(|x| x.to_string()))
+                        .unwrap_or_default();
+                    let cand = (nid, tid);
+                    match pick.get(&pid) {
+                        Some(cur) if *cur <= cand => {}
+                        _ => {
+                            pick.insert(pid, cand);
+                        }
+                    }
+                }
+                if pick.is_empty() {
+                    break;
+                }
+                let mut joins = Vec::new();
+                let mut picks: Vec<(String, (String, String))> = pick.into_iter().collect();
+                picks.sort();
+                for (pid, (nid, tid)) in picks {
+                    let exec = st.engine.executor();
+                    let handle = handle.clone();
+                    let ans = answers[&pid][&nid].clone();
+                    let f = move || {
+                        let _g = handle.enter();
+                        let ev = ans["ev"].as_str().unwrap_or("next").to_string();
+                        let opts = vars_of(&ans["opts"]);
+                        let act = exec.act();
+                        let r = match ev.as_str() {
+                            "error" => act.error(&pid, &tid, &opts),
+                            "skip" => act.skip(&pid, &tid, &opts),
+                            "abort" => act.abort(&pid, &tid, &opts),
+                            "submit" => act.submit(&pid, &tid, &opts),
+                            _ => act.complete(&pid, &tid, &opts),
+                        };
+                        match r {
+                            Ok(_) => json!({"k":"swarm_act","round":round,"pid":pid,"nid":nid,"tid":tid,"ev":ev,"ok":true}),
+                            Err(e) => json!({"k":"swarm_act","round":round,"pid":pid,"nid":nid,"tid":tid,"ev":ev,"ok":false,"err":classify(&e.to_string()),"raw":e.to_string()}),
+                        }
+                    };
+                    if parallel {
+                        joins.push(std::thread::spawn(f));
+                    } else {
+                        obs.push(f());
+                    }
+                }
+                for j in joins {
+                    obs.push(j.join().unwrap_or_else(|_| json!({"k":"swarm_act","ok":false,"err":"panic"})));
+                }
+                for o in obs.iter() {
+                    if o["k"] == "swarm_act" && o["ok"] == false {
+                        let key = (o["pid"].as_str().unwrap_or("").to_string(), o["tid"].as_str().unwrap_or("").to_string());
+                        if !refused.contains(&key) {
+                            refused.push(key);
+                        }
+                    }
+                }
+                quiesce(obs).await;
+            }
+            // final stored image of every process
+            let pids = st.pids.clone();
+            for pid in pids {
+                let q = json!({"conds":[{"type":"and","exprs":[["eq","pid",pid]]}],"limit":100000});
+                let r = storeops::store_op(&st.engine, "tasks", "query", &q);
+                let rows = r["rows"].as_array().cloned().unwrap_or_default();
+                let tasks: Vec<Value> = rows
+                    .iter()
+                    .map(|row| {
+                        let node = serde_json::from_str::<Value>(row["node_data"].as_str().unwrap_or("{}")).unwrap_or(Value::Null);
+                        let data = serde_json::from_str::<Value>(row["data"].as_str().unwrap_or("{}")).unwrap_or(Value::Null);
+                        json!({"tid": row["tid"], "nid": node["id"], "kind": row["kind"], "state": row["state"], "data": data, "err": row["err"]})
+                    })
+                    .collect();
+                let p = storeops::store_op(&st.engine, "procs", "find", &json!(pid));
+                obs.push(json!({"k":"swarm_final","pid":pid,"tasks":tasks,"state":p["row"]["state"],"env":p["row"]["env"],"perr":p["row"]["err"]}));
+            }
+        }
         "tick" => {
             let dt = a.get(1).and_then(|x| x.as_i64()).unwrap_or(0);
             verif::advance_clock(dt);
@@ -590,6 +724,7 @@ pub fn run_scenario(sc: &Value, scratch: &str) -> Value {
             .unwrap()
     };
 
+    STUCK_SECS.store(sc["config"]["stuck_secs"].as_u64().unwrap_or(4), Ordering::SeqCst);
     verif::reset();
     verif::set_trace(true);
     verif::set_gate(cfg.stepped);
